@@ -113,3 +113,5 @@ Fixpoint count_id (id : Z) (l : list Z) : Z :=
 
 Fixpoint memZ (x : Z) (l : list Z) : bool :=
   match l with [] => false | y :: t => Z.eqb x y || memZ x t end.
+
+Definition zlen {A} (l : list A) : Z := Z.of_nat (length l).
